@@ -309,9 +309,21 @@ Definition field_writers_translated : Prop :=
 Lemma field_writers_translated_ok : field_writers_translated.
 Proof.
   unfold field_writers_translated.
-  repeat split; intros;
-    first [apply gw_Boolean|apply gw_Byte|apply gw_UnsignedByte|apply gw_Angle|apply gw_Short|apply gw_UnsignedShort|apply gw_Int
-          |apply gw_Long|apply gw_Float|apply gw_Double|apply gw_VarInt|apply gw_VarLong|apply gw_Position
-          |apply gw_String; assumption|apply gw_UUID; assumption].
+  repeat match goal with |- _ /\ _ => split end; intros.
+  - apply gw_Boolean.
+  - apply gw_Byte.
+  - apply gw_UnsignedByte.
+  - apply gw_Angle.
+  - apply gw_Short.
+  - apply gw_UnsignedShort.
+  - apply gw_Int.
+  - apply gw_Long.
+  - apply gw_Float.
+  - apply gw_Double.
+  - apply gw_VarInt.
+  - apply gw_VarLong.
+  - apply gw_Position.
+  - apply gw_String; assumption.
+  - apply gw_UUID; assumption.
 Qed.
 End WBundle.
